@@ -30,7 +30,7 @@ def toolkit(c, p, maxs, th):
                 lines.append('mw.op name=randomize n=%d obj=2 src=2 tape=%s tapedata=%s' % (n, t, td))
                 lines.append('mw.op name=randomize n=%d obj=5 src=2 tape=%s tapedata=%s' % (n, t, td))
             for m in ns:
-                if m != n: lines.append('mw.op name=from n=%d m=%d obj=6 src=%d %s' % (m, n, 2, tape(rng))); lines.append('mw.op name=store n=%d obj=6' % m)
+                if m != n: lines.append('mw.op name=from n=%d m=%d obj=6 src=%d dirty=%d %s' % (m, n, 2, rng.randrange(1, 256), tape(rng))); lines.append('mw.op name=store n=%d obj=6' % m)
             p.case(lines, cost=2.0); c.distinct([('word', maxs, n, rep)])
         # masked permutation for every starting round, state refresh, conversions
         for rep in range(4 if th else 1):
@@ -41,7 +41,7 @@ def toolkit(c, p, maxs, th):
                 if r % 4 == 0: lines.append('ms.op name=randomize n=%d obj=1 tape=%s tapedata=%s' % (n, rng.choice(['rand', 'zero', 'ones']), hx(pattern(rng, 8, 'rand'))))
             lines.append('ms.op name=to_x1 n=%d obj=1' % n)
             for m in ns:
-                lines += ['ms.op name=from n=%d m=%d obj=2 src=1 %s' % (m, n, tape(rng)), 'ms.op name=permute n=%d obj=2 r=%d %s' % (m, rng.randrange(12), tape(rng)), 'ms.op name=to_x1 n=%d obj=2' % m, 'ms.op name=free n=%d obj=2' % m]
+                lines += ['ms.op name=from n=%d m=%d obj=2 src=1 dirty=%d %s' % (m, n, rng.randrange(1, 256), tape(rng)), 'ms.op name=permute n=%d obj=2 r=%d %s' % (m, rng.randrange(12), tape(rng)), 'ms.op name=to_x1 n=%d obj=2' % m, 'ms.op name=free n=%d obj=2' % m]
             lines.append('ms.op name=free n=%d obj=1' % n)
             p.case(lines, cost=2.0); c.distinct([('state', maxs, n, rep)])
     # masked keys
